@@ -165,12 +165,12 @@ Proof. reflexivity. Qed.
 (* map literal: each key is written as a double-quoted literal chunk before its value *)
 Lemma site_map_key w first k x r :
   map_items w first ((k, x) :: r)
-  = jbind (if first then jret tt else txt t_comma)
-      (fun _ => jbind (emit [CStrLit 34 k; CText t_colon]) (fun _ => jbind (w x) (fun _ => map_items w false r))).
+  = jbind (if first then jret tt else jtxt t_comma)
+      (fun _ => jbind (jemit [CStrLit 34 k; CText t_colon]) (fun _ => jbind (w x) (fun _ => map_items w false r))).
 Proof. reflexivity. Qed.
 
 (* the text of a translation *)
-Lemma site_translation_text w body t : eval_part w body (JMRaw t) = write_raw_text t.
+Lemma site_translation_text w body t : jeval_part w body (JMRaw t) = write_raw_text t.
 Proof. reflexivity. Qed.
 
 (* a decidable form of the guard, for concrete strings *)
